@@ -200,6 +200,7 @@ FloatOfTC(t, tc) ==
      ELSE [s |-> s, m |-> NatOfBits(Sub(mant, tz, F + 1 - tz)), e |-> ex - Bias(t) - F + tz]
 
 (* LEB128 (canonical = shortest encodings) *)
+BigInt == 0 - 1073741823    \* stands for an integer TLC cannot hold (only met when a deviation reads elsewhere)
 RECURSIVE ULeb(_), SLeb(_), LebLen(_, _)
 ULeb(x) == IF x < 128 THEN <<x>> ELSE <<128 + (x % 128)>> \o ULeb(x \div 128)
 SLeb(x) == LET b == x % 128  r == x \div 128 IN           \* \div floors: an arithmetic shift
@@ -211,7 +212,7 @@ LebDec(bs, o, signed) ==
   LET n == LebLen(bs, o)
       u == IF n > 4 THEN 0 ELSE LebAcc(bs, o, n)
       last == At(bs, o + n - 1)
-  IN IF n > 4 THEN [v |-> 0, n |-> n, x |-> Len(bs) + 1]      \* never generated
+  IN IF n > 4 THEN [v |-> BigInt, n |-> n, x |-> o + n]         \* never generated: "some integer >= 2^28"
      ELSE [v |-> IF signed /\ (last % 128) >= 64 THEN u - Pow2(7 * n) ELSE u, n |-> n, x |-> o + n]
 
 -----------------------------------------------------------------------------
@@ -254,6 +255,8 @@ DecBits(f, bs, o, ps, eo) ==
 (*                    to the union's size)                                  *)
 (*   "UnionIdxNative" the member a union is packed from is chosen with the  *)
 (*                    sizes of the host (64-bit) whatever the pointer size  *)
+(*   "SLebU"          a signed LEB128 member is written by the unsigned     *)
+(*                    encoder (see UNPACK)                                  *)
 RECURSIVE Pack(_, _, _, _), EncField(_, _, _, _, _), PackFrom(_, _, _, _, _, _)
 EncElems(t, vs, eo) == IF IsBytes(t) THEN vs ELSE Flat([j \in 1..Len(vs) |-> EncScalar(t, vs[j], eo)])
 EncField(d, f, v, ps, D) ==
@@ -264,7 +267,7 @@ EncField(d, f, v, ps, D) ==
     [] f.k = "var"   -> EncElems(f.t, v, eo)
     [] f.k = "cnt"   -> EncScalar(f.ct, UIntV(Len(v), RawSize(f.ct, ps)), eo) \o EncElems(f.t, v, eo)
     [] f.k = "bound" -> EncElems(f.t, v, eo)
-    [] f.k = "leb"   -> IF IsSigned(f.t) THEN SLeb(v) ELSE ULeb(v)
+    [] f.k = "leb"   -> IF IsSigned(f.t) /\ "SLebU" \notin D THEN SLeb(v) ELSE ULeb(v)
 (* fields i.. appended to acc (a struct): zero padding up to the field's offset *)
 PackFrom(d, vs, i, acc, ps, D) ==
   IF i > Len(d.fs) THEN acc
@@ -295,7 +298,7 @@ Pack(d, vs, ps, D) ==
 (*   "SLebU"        a signed LEB128 member is decoded as unsigned (the     *)
 (*                  per-instance copy of the field forgets its sign)        *)
 (*   "SLongU", "PackedNestAlign"  see above                                 *)
-RECURSIVE Unpack(_, _, _, _, _), DecField(_, _, _, _, _, _, _), UnpFrom(_, _, _, _, _, _, _, _, _), DecElems(_, _, _, _, _, _, _),
+RECURSIVE Unpack(_, _, _, _, _), DecField(_, _, _, _, _, _, _), UnpFrom(_, _, _, _, _, _, _, _, _, _), DecElems(_, _, _, _, _, _, _),
           TermLen(_, _, _, _, _), ImplLen(_, _, _)
 DecElems(t, bs, o, n, ps, eo, D) ==
   IF IsBytes(t) THEN Sub(bs, o, n)
@@ -304,12 +307,14 @@ IsZeroElem(t, bs, o, ps) == \A j \in 0..(RawSize(t, ps) - 1) : At(bs, o + j) = 0
 (* number of elements of a terminated field, terminator included *)
 TermLen(t, bs, o, ps, k) == IF IsZeroElem(t, bs, o, ps) THEN k + 1 ELSE TermLen(t, bs, o + RawSize(t, ps), ps, k + 1)
 (* StructCore.__len__ on an unpacked instance: sizes of the host (ps = 64) *)
-ImplLen(d, ps, D) == SizeOf(d, IF "LenNative" \in D THEN 64 ELSE ps, D \cup {"_inst"})
+NatPs(ps, D) == IF "LenNative" \in D THEN 64 ELSE ps
+ImplLen(d, ps, D) == SizeOf(d, NatPs(ps, D), D \cup {"_inst"})
 DecField(d, f, bs, o, ps, prior, D) ==
   LET eo == EOrd(d, f) IN
   CASE f.k = "raw" /\ ~(f.td /\ "AbsAlign" \in D) ->
                        [v |-> IF f.n = 0 THEN DecScalar(f.t, bs, o, ps, eo, D) ELSE DecElems(f.t, bs, o, f.n, ps, eo, D),
                         n |-> IF f.td /\ f.n > 0 /\ "ArrLenCount" \in D THEN f.n ELSE FSize(f, ps, D),
+                        il |-> IF f.td /\ f.n > 0 /\ "ArrLenCount" \in D THEN f.n ELSE FSize(f, NatPs(ps, D), D),
                         x |-> o + RawSize(f.t, ps) * Mult(f)]
     [] f.k = "raw" /\ f.td /\ "AbsAlign" \in D ->
          \* a typedef is a (non-packed) definition of one member: under AbsAlign every element is
@@ -319,31 +324,35 @@ DecField(d, f, bs, o, ps, prior, D) ==
          IN [v |-> IF f.n = 0 THEN DecScalar(f.t, bs, at(1), ps, eo, D)
                    ELSE [j \in 1..f.n |-> DecScalar(f.t, bs, at(j), ps, eo, D)],
              n |-> IF f.n > 0 /\ "ArrLenCount" \in D THEN f.n ELSE FSize(f, ps, D),
+             il |-> IF f.n > 0 /\ "ArrLenCount" \in D THEN f.n ELSE FSize(f, NatPs(ps, D), D),
              x |-> at(Mult(f)) + sz]
     [] f.k = "nest" ->
          IF f.n = 0
          THEN LET r == Unpack(f.d, bs, o, ps, D)
-              IN [v |-> r.v, n |-> IF HasVar(f.d) THEN r.n ELSE ImplLen(f.d, ps, D), x |-> r.x]
+              IN [v |-> r.v, n |-> r.il, il |-> r.il, x |-> r.x]
          ELSE LET es == ImplLen(f.d, ps, D)       \* Field.unpack strides with len(element)
                   rs == [j \in 1..f.n |-> Unpack(f.d, bs, o + (j - 1) * es, ps, D)]
               IN [v |-> [j \in 1..f.n |-> rs[j].v],
                   n |-> IF "ArrLenCount" \in D THEN f.n ELSE f.n * es,
+                  il |-> IF "ArrLenCount" \in D THEN f.n ELSE f.n * es,
                   x |-> Max({rs[j].x : j \in 1..f.n})]
-    [] f.k = "bits" -> [v |-> DecBits(f, bs, o, ps, eo), n |-> RawSize(f.t, ps), x |-> o + RawSize(f.t, ps)]
+    [] f.k = "bits" -> [v |-> DecBits(f, bs, o, ps, eo), n |-> RawSize(f.t, ps), il |-> RawSize(f.t, ps), x |-> o + RawSize(f.t, ps)]
     [] f.k = "var"  -> LET k == TermLen(f.t, bs, o, ps, 0)
-                       IN [v |-> DecElems(f.t, bs, o, k, ps, eo, D), n |-> k * RawSize(f.t, ps), x |-> o + k * RawSize(f.t, ps)]
+                       IN [v |-> DecElems(f.t, bs, o, k, ps, eo, D), n |-> k * RawSize(f.t, ps), il |-> k * RawSize(f.t, ps),
+                           x |-> o + k * RawSize(f.t, ps)]
     [] f.k = "cnt"  -> LET cs == RawSize(f.ct, ps)
                            k == SmallNat(TCOfInt(DecScalar(f.ct, bs, o, ps, eo, D)))
-                       IN IF k < 0 THEN [v |-> <<>>, n |-> cs, x |-> Len(bs) + 1]
+                       IN IF k < 0 THEN [v |-> <<>>, n |-> cs, il |-> cs, x |-> Len(bs) + 1]
                           ELSE [v |-> DecElems(f.t, bs, o + cs, k, ps, eo, D), n |-> cs + k * RawSize(f.t, ps),
-                                x |-> o + cs + k * RawSize(f.t, ps)]
+                                il |-> cs + k * RawSize(f.t, ps), x |-> o + cs + k * RawSize(f.t, ps)]
     [] f.k = "bound" -> LET k == SmallNat(prior[f.ref].mag)
-                        IN IF k < 0 THEN [v |-> <<>>, n |-> 0, x |-> Len(bs) + 1]
+                        IN IF k < 0 THEN [v |-> <<>>, n |-> 0, il |-> 0, x |-> Len(bs) + 1]
                            ELSE [v |-> DecElems(f.t, bs, o, k, ps, eo, D), n |-> k * RawSize(f.t, ps),
-                                 x |-> o + k * RawSize(f.t, ps)]
-    [] f.k = "leb"  -> LebDec(bs, o, IsSigned(f.t) /\ "SLebU" \notin D)
-UnpFrom(d, bs, base, i, pos, vals, xt, ps, D) ==
-  IF i > Len(d.fs) THEN [v |-> vals, end |-> pos, x |-> xt]
+                                 il |-> k * RawSize(f.t, ps), x |-> o + k * RawSize(f.t, ps)]
+    [] f.k = "leb"  -> LET r == LebDec(bs, o, IsSigned(f.t) /\ "SLebU" \notin D)
+                       IN [v |-> r.v, n |-> r.n, il |-> r.n, x |-> r.x]
+UnpFrom(d, bs, base, i, pos, vals, xt, ils, ps, D) ==
+  IF i > Len(d.fs) THEN [v |-> vals, end |-> pos, x |-> xt, il |-> ils]
   ELSE LET f == d.fs[i]
            a == ElemAlign(f, ps, D)
            o == IF d.kind = "union" THEN base
@@ -351,10 +360,14 @@ UnpFrom(d, bs, base, i, pos, vals, xt, ps, D) ==
                 ELSE IF "AbsAlign" \in D THEN Up(pos, a) ELSE base + Up(pos - base, a)
            r == DecField(d, f, bs, o, ps, vals, D)
        IN UnpFrom(d, bs, base, i + 1, IF d.kind = "union" THEN pos ELSE o + r.n, Append(vals, r.v),
-                  IF r.x > xt THEN r.x ELSE xt, ps, D)
+                  IF r.x > xt THEN r.x ELSE xt, ils + r.il, ps, D)
+(* n: bytes the definition occupies; il: what amoco takes for its size once unpacked = len(instance): *)
+(* the sum of the members' sizes for the (packed) definitions with variable-length members, the      *)
+(* static size otherwise - under LenNative both with the host's pointer size                         *)
 Unpack(d, bs, base, ps, D) ==
-  LET r == UnpFrom(d, bs, base, 1, base, <<>>, base, ps, D)
-  IN [v |-> r.v, n |-> IF HasVar(d) THEN r.end - base ELSE SizeOf(d, ps, D), x |-> r.x]
+  LET r == UnpFrom(d, bs, base, 1, base, <<>>, base, 0, ps, D)
+  IN [v |-> r.v, n |-> IF HasVar(d) THEN r.end - base ELSE SizeOf(d, ps, D), x |-> r.x,
+      il |-> IF HasVar(d) THEN r.il ELSE ImplLen(d, ps, D)]
 
 -----------------------------------------------------------------------------
 (* VALUE GENERATION: a value class and a per-field seed give every field a  *)
@@ -617,7 +630,7 @@ LayoutDevs == IF HasPackedNest(TheDef) \/ TheDef.packed THEN {{"PackedNestAlign"
 (* member, either reading, naming the deviation whenever it needed the second one.                *)
 SignDevs == {x \in {"SLongU", "SLebU"} : CanMatter(x)}
 UnpDevNames == {x \in {"AbsAlign", "ArrLenCount", "LenNative", "PackedNestAlign"} : CanMatter(x)}
-PackDevNames == {x \in {"PadAtEnd", "UnionNoPad", "UnionIdxNative", "PackedNestAlign"} : CanMatter(x)}
+PackDevNames == {x \in {"PadAtEnd", "UnionNoPad", "UnionIdxNative", "PackedNestAlign", "SLebU"} : CanMatter(x)}
 SetToSeq(S) == LET RECURSIVE F(_) F(T) == IF T = {} THEN <<>> ELSE LET x == CHOOSE x \in T : TRUE IN <<x>> \o F(T \ {x}) IN F(S)
 (* offsets in the shape of StructCore.offsets(): one <<offset, size>> per field, and for a bitfield *)
 (* unit of a structure one <<offset of the unit, -1>> per sub-field                               *)
